@@ -60,6 +60,8 @@ Quiescent(st) == /\ st.pend = 0
                  /\ \A i \in I : st.alive[i] => /\ st.fsm[i] \in Serving
                                                 /\ \A j \in I : st.inst[i][j] \notin {"CHECKING", "CHECKED", "FAILED"}
                                                 /\ \A j \in I : st.alive[j] => st.inst[i][j] = "RUNNING"
+                                                \* (a lost instance has been noticed: membership has settled)
+                                                /\ \A j \in I : ~st.alive[j] => st.inst[i][j] \notin Active
 
 Run(st, i, p) == ToSet(st.run[i][p])
 \* truth: where the Supervisors of the instances that i sees RUNNING really run p (a STOPPING copy may be listed or not)
